@@ -22,6 +22,8 @@ import GojaModel.C19.AllowListWf
 import GojaModel.C19.ReviverMutThm
 import GojaModel.C19.MarshalThm
 import GojaModel.C19.SpaceMech
+import GojaModel.C19.BoxedThm
+import GojaModel.C19.CycleThm
 
 namespace GojaModel.C19
 
@@ -174,6 +176,33 @@ theorem stringify_mechanism_refines_spec (gap : Str) (v : MVal) (buf ind : Str) 
       | some j => (buf ++ ser gap ind j, ind, true)
       | none => (buf, ind, false) :=
   mechOK gap v buf ind
+
+/-- mechanism level (Boxed.lean: `str` with its unwrapping switch, builtin_json.go:311–353): Number / String / Boolean wrappers
+    are unwrapped, a Symbol wrapper is serialised as an ordinary object ("{}", fix 149785e), non-finite numbers give
+    null, and a BigInt — primitive or wrapper, at any depth — abandons the call with a TypeError; in every other case
+    the result is the mechanism of Mech.lean on the unwrapped value, for every buffer and indent. -/
+theorem boxed_mechanism_refines_spec (gap : Str) (v : BVal) (buf ind : Str) :
+    strB gap v buf ind = if hasBig v then .typeError else okOf (strM gap (lower v) buf ind) :=
+  boxOK gap v buf ind
+
+/-- JSON.stringify on values with boxed primitives / BigInt: TypeError iff a BigInt is reachable, else undefined or the
+    specified text of the unwrapped value -/
+theorem stringify_boxed_bigint (gap : Str) (v : BVal) : stringifyB gap v = stringifyBSpec gap v :=
+  stringifyB_eq_spec gap v
+
+/-- mechanism level (Cycle.lean: builtin_json.go:374–381 — lookup in `ctx.stack`, push, deferred pop on every way out incl. the
+    early `return false` for a callable): for every value with object identities (shared references, back-references,
+    functions), every stack, buffer and indent: TypeError iff an object is reached while it is one of its own
+    ancestors; otherwise the text mechanism of Mech.lean AND the stack handed back exactly as received.
+    (The red-team change m2 — pop skipped for a callable — falsifies it.) -/
+theorem cycle_detection_refines_spec (gap : Str) (v : CVal) (st : List Nat) (buf ind : Str) :
+    strC gap v st buf ind = if cyc st v then .typeError else okC (strM gap (erase v) buf ind) st :=
+  cycOK gap v st buf ind
+
+/-- the same object twice among siblings is not a cycle (`[x, x]`) -/
+theorem shared_reference_not_a_cycle (id : Nat) (x : CVal) (hx : cyc [id] x = false) :
+    cyc [] (.arr id [x, x]) = false :=
+  shared_reference_is_not_a_cycle id x hx
 
 /-- Object.MarshalJSON (value.go:944: `ctx.do(o)`, "null" when `str` returned false) and JSON.stringify run the same
     mechanism: MarshalJSON's bytes are stringify's text, or "null" where stringify returns undefined … -/
